@@ -1401,7 +1401,33 @@ def check_row_bindings(u):
     return obligations, failures, samples
 
 
-CHECKS = {"row_bindings": check_row_bindings, "feeds_fed": check_feeds_fed, "exists_binding": check_exists_binding, "seqmerge_params": check_seqmerge_params, "chunker_ranges": check_chunker_ranges, "persist_before_publish": check_persist_before_publish, "schema_reload": check_schema_reload, "cluster_id_fresh": check_cluster_id_fresh, "schema_ddl": check_schema_ddl, "schema_atomic": check_schema_atomic, "seq_range_guard": check_seq_range_guard, "exits_covered": check_exits_covered, "sub_lag_stops": check_sub_lag_stops, "single_snapshot": check_single_snapshot, "offer_loops": check_offer_loops, "speedy_prealloc": check_speedy_prealloc, "from_conn": check_from_conn, "sql_actor_scoping": check_sql_actor_scoping, "local_write_sequence": check_local_write_sequence, "insert_local_changes": check_insert_local_changes, "authz_layer": check_authz_layer, "readonly_guard": check_readonly_guard, "read_pool": check_read_pool}
+def check_updates_row_binding(u):
+    """C14: match_changes_from_db_version (the feed path after a buffered remote version is applied) reads (table, pk, column, cl) by position
+    from `SELECT "table", pk, cid, cl FROM crsql_changes …`.  `cl` — the causal length, whose parity decides 'deleted' vs 'updated' and
+    which orders states of a key — must come from the `cl` column, not from `col_version`."""
+    from .lex import iter_string_literals
+    file = u["file"]
+    src, msk, o, c = _fn_body(file, u["fn"])
+    lits = [(a, t) for (a, t) in iter_string_literals(src) if o <= a < c and re.search(r"\bSELECT\b", t)]
+    if not lits:
+        raise LostAnchor("match_changes_from_db_version: SELECT not found")
+    cols = _select_cols(lits[0][1])
+    gets = [int(x) for x in re.findall(r"row\s*\.\s*get\s*::\s*<[^()]*>\s*\(\s*(\d+)\s*\)", msk[o:c])]
+    dm = re.search(r"let\s*\(\s*(\w+)\s*,\s*(\w+)\s*,\s*(\w+)\s*,\s*(\w+)\s*\)\s*=\s*change_res", msk[o:c])
+    if not dm or len(gets) < 4:
+        raise LostAnchor("match_changes_from_db_version: row tuple / destructuring not recognised")
+    names = list(dm.groups())
+    want = {"table": "table", "pk": "pk", "column": "cid", "cl": "cl"}
+    obligations = ["feed-after-buffered-apply-reads-%s-from-its-column" % n for n in names]
+    failures = []
+    for n, gi, ob in zip(names, gets[:4], obligations):
+        col = cols[gi] if cols and gi < len(cols) else "?"
+        if col != want.get(n, n):
+            failures.append((ob, _line(src, lits[0][0]), "`%s` is read from column #%d, which the query fills with `%s`" % (n, gi, col)))
+    return obligations, failures, ["%s:%d SELECT %s -> %s" % (file, _line(src, lits[0][0]), cols, names)]
+
+
+CHECKS = {"updates_row_binding": check_updates_row_binding, "row_bindings": check_row_bindings, "feeds_fed": check_feeds_fed, "exists_binding": check_exists_binding, "seqmerge_params": check_seqmerge_params, "chunker_ranges": check_chunker_ranges, "persist_before_publish": check_persist_before_publish, "schema_reload": check_schema_reload, "cluster_id_fresh": check_cluster_id_fresh, "schema_ddl": check_schema_ddl, "schema_atomic": check_schema_atomic, "seq_range_guard": check_seq_range_guard, "exits_covered": check_exits_covered, "sub_lag_stops": check_sub_lag_stops, "single_snapshot": check_single_snapshot, "offer_loops": check_offer_loops, "speedy_prealloc": check_speedy_prealloc, "from_conn": check_from_conn, "sql_actor_scoping": check_sql_actor_scoping, "local_write_sequence": check_local_write_sequence, "insert_local_changes": check_insert_local_changes, "authz_layer": check_authz_layer, "readonly_guard": check_readonly_guard, "read_pool": check_read_pool}
 
 
 def run_unit(prop, u, tier, ctx, here):
